@@ -1,12 +1,14 @@
 """C01 Round trip for every length, mode and thread count (necessary structural conditions)."""
 from .common import combined
 LEVEL = 'other'
-RULES = ('R01.a', 'R01.b', 'R01.c', 'R01.d', 'R01.e', 'R01.f', 'R01.g', 'R01.h', 'R02.d', 'R04.e', 'R03.b', 'R01.i', 'R10.s', 'R10.d', 'R03.c', 'R09.a', 'R09.k', 'R09.e', 'R09.d', 'R09.t', 'R04.g', 'R04.f', 'R15.b', 'R14.t', 'R01.j', 'R01.k')
+RULES = ('R01.a', 'R01.b', 'R01.c', 'R01.d', 'R01.e', 'R01.f', 'R01.g', 'R01.h', 'R02.d', 'R04.e', 'R03.b', 'R01.i', 'R10.s', 'R10.d', 'R03.c', 'R09.a', 'R09.k', 'R09.e', 'R09.d', 'R09.t', 'R04.g', 'R04.f', 'R15.b', 'R14.t', 'R01.j', 'R01.k', 'M1', 'M2', 'M3', 'M4', 'M5', 'R01.u', 'R02.r')
 
 
 def run(prog, rec, tier):
+    from . import static_rules as _sr
+    _sr.unsequenced(prog, rec, 'R01.u', 'R01.u@kernel::evaluation-order', ('kernel', 'main.cpp', 'valget'))
     from . import cli_rules
-    combined(prog, rec, tier, RULES, driver=('reader', 'layout', 'singleton', 'sequence'), pipe=True, spawn=True, modes=('steps', 'isolation'), aes=('tables', 'key_schedule', ('block', 'enc'), ('block', 'dec'), 'key_load'),
+    combined(prog, rec, tier, RULES, driver=('reader', 'layout', 'singleton', 'sequence'), pipe=True, monitor=True, spawn=True, modes=('steps', 'isolation'), aes=('tables', 'key_schedule', ('block', 'enc'), ('block', 'dec'), 'key_load'),
              explanation='PKCS#7 pad write (value, length, offset, block index) for every residue; end-of-body table over the '
              'remaining-length partition for encrypt and decrypt; loaded buffer non-empty; export size within the buffer on every '
              'path (valid-padding guard); decrypt body offset equals the writer\'s header length for every T; chunk i <-> stream i. '
